@@ -19,7 +19,7 @@ Special == ("65536" :> IntN(65536)) @@ ("65537" :> IntN(65537)) @@ ("1000" :> In
            @@ ("0" :> IntN(0)) @@ ("1" :> IntN(1)) @@ ("2" :> IntN(2)) @@ ("3" :> IntN(3)) @@ ("5" :> IntN(5))
            @@ ("6" :> IntN(6)) @@ ("7" :> IntN(7)) @@ ("9" :> IntN(9)) @@ ("-1" :> IntN(-1))
            @@ ("/x" :> NameV("x")) @@ ("/p" :> NameV("p")) @@ ("/add" :> NameV("add")) @@ ("/y" :> NameV("y"))
-           @@ ("{" :> LBrace) @@ ("}" :> RBrace)
+           @@ ("{" :> LBrace) @@ ("}" :> RBrace) @@ ("<C3A9FF>" :> StrLit(<<195, 169, 255>>))
 Tok(str) == IF str \in DOMAIN Special THEN Special[str] ELSE XNameV(str)
 Toks(ss) == [j \in 1..Len(ss) |-> Tok(ss[j])]
 
@@ -34,7 +34,7 @@ Seqs(S, k) == \* concatenations of at most k members of S
     IN F(k)
 Body0 == Seqs(Atoms, 2)
 
-Forms == {"lit", "exec", "ift", "iff", "ifelset", "ifelsef", "repeat2", "repeat0", "for", "fordown",
+Forms == {"lit", "exec", "ift", "iff", "ifelset", "ifelsef", "repeat2", "repeat0", "repeat1", "forallhigh", "for", "fordown",
           "loop", "forall", "forallstr", "bindexec", "defp", "defbindp", "foralldict"}
 Wrap(f, b) ==
     CASE f = "lit" -> <<"{">> \o b \o <<"}">>
@@ -45,6 +45,8 @@ Wrap(f, b) ==
       [] f = "ifelsef" -> <<"false", "{", "9", "}", "{">> \o b \o <<"}", "ifelse">>
       [] f = "repeat2" -> <<"2", "{">> \o b \o <<"}", "repeat">>
       [] f = "repeat0" -> <<"0", "{">> \o b \o <<"}", "repeat">>
+      [] f = "repeat1" -> <<"1", "{">> \o b \o <<"}", "repeat">>             \* a single iteration is still a loop (exit)
+      [] f = "forallhigh" -> <<"<C3A9FF>", "{">> \o b \o <<"}", "forall">>    \* bytes, not characters
       [] f = "for" -> <<"1", "1", "3", "{">> \o b \o <<"}", "for">>
       [] f = "fordown" -> <<"3", "-1", "2", "{">> \o b \o <<"}", "for">>
       [] f = "loop" -> <<"{">> \o b \o <<"}", "loop">>
